@@ -284,6 +284,36 @@ def measures(chk, plans):
             m, n, r["total"], len(r["counts"]), exact, len(issues)))
 
 
+def large_m_balance(chk):
+    """sizes far above the grids (65537, 2^20, 2^24): low and high bits of the drawn offset must be uniform
+    (Hoeffding radius at delta = 1e-9 over all buckets)"""
+    import math
+    out = os.path.join(chk.wd, "largem.json")
+    harness("c17", ["largem", "out=" + out, "seed=%d" % chk.seed, "n=%d" % (200000 if chk.tier == "quick" else 1000000)], timeout=1500)
+    r = json.load(open(out))
+    worst = 0.0
+    for c in r["cases"]:
+        if c.get("panic"):
+            chk.violation(dict(kind="large-m", what="panic", m=c["m"]), dict(kind="large-m", case=c, seed=chk.seed))
+            continue
+        if c["out_of_bounds"]:
+            chk.violation(dict(kind="large-m", what="out-of-bounds", m=c["m"]), dict(kind="large-m", case=c, seed=chk.seed))
+            continue
+        n = c["used"]
+        chk.add("evaluations", c["draws"])
+        rad = math.sqrt(math.log(2.0 / (1e-9 / 96)) / (2.0 * n)) + 16.0 / c["m"]
+        for name in ("low", "high"):
+            for cnt in c[name]:
+                dev = abs(cnt / n - 1.0 / 16)
+                worst = max(worst, dev / rad)
+                if dev > rad:
+                    chk.violation(dict(kind="large-m", what="offset-%s-bits-not-uniform" % name, m=c["m"]),
+                                  dict(kind="large-m", case=c, radius=rad, seed=chk.seed))
+                    break
+    chk.cov["large_m_worst_dev_over_radius"] = worst
+    log("[C17] large m (65537, 2^20, 2^24): offset low/high bits uniform, worst deviation/radius = %.3f" % worst)
+
+
 def run(chk):
     build_harness("c17")
     p = plan(chk.tier)
@@ -304,6 +334,7 @@ def run(chk):
     for i, rp in enumerate(p["record"]):
         record_and_validate(chk, i, rp, chk.seed + i)
     measures(chk, p["measure"])
+    large_m_balance(chk)
     chk.cov["exhaustive"] = True
     chk.cov["explanation"] = ("exhaustive for the listed state graphs and behaviour graphs; larger m (<= 64, one trace set up to "
                               "1024 in the thorough tier) sampled by recorded traces and metamorphic cases; a non-zero "
